@@ -230,6 +230,16 @@ class Gen:
             sections["aliases"].append(f"  {n}: {t}")
             D.aliases[n] = t
             local_aliases.append(n)
+        if rng.random() < 0.05:
+            # an alias that happens to be called like a native type (the parser accepts it; a field declared with that
+            # name still means the native type, in every output)
+            n = rng.choice(["uint16", "int8", "uint8", "int16", "int32", "uint32", "int64", "uint64"])
+            if n not in D.aliases:
+                t = rng.choice([x for x in ("uint8", "int16", "uint32", "int64", "double") if NATIVES[x][1] != NATIVES[n][1]])
+                sections["aliases"].append(f"  {n}: {t}")
+                D.aliases[n] = t
+                local_aliases.append(n)
+                D.features.add("alias_named_like_native_type")
         for _ in range(rng.randint(0, 2)):
             n = self.nm.new("H_")
             v = self.hids.pop()
@@ -261,6 +271,12 @@ class Gen:
                 fn = self.nm.new("f_", upper=False)
                 while fn in used:
                     fn = self.nm.new("f_", upper=False)
+                if rng.random() < 0.03:
+                    # plain words that older YAML versions read as booleans (plain strings in the version the parser uses)
+                    w = rng.choice(["on", "off", "yes", "no"])
+                    if w not in used:
+                        fn = w
+                        D.features.add("field_named_like_yaml11_boolean")
                 used.add(fn)
                 pool = list(NATIVE_NAMES)
                 if self.heavy:
@@ -516,13 +532,31 @@ class Gen:
                 t = t.replace("\n", "\r\n")
                 self.desc.features.add("spelling_crlf")
             files[rel] = t
+        if rng.random() < 0.08:
+            # a hand-written leaf file from older times that declares its YAML version; the root imports it first
+            cname = self.nm.new("K_LEGACY_")
+            self.desc.constants[cname], self.desc.const_expr[cname] = 7, "7"
+            files["legacy_units.yaml"] = f"%YAML 1.1\n---\nconstants:\n  {cname}: 7\n"
+            rootp = paths[k - 1]
+            rel = self._rel(rootp, "legacy_units.yaml")
+            t = files[rootp]
+            nl = "\r\n" if "\r\n" in t else "\n"
+            if "imports: null" in t:
+                t = t.replace("imports: null", f"imports:{nl}  - {rel}", 1)
+            else:
+                t = t.replace("imports:" + nl, f"imports:{nl}  - {rel}{nl}", 1)
+            if rel in t:
+                files[rootp] = t
+                self.desc.features.add("imports_file_with_yaml11_directive")
+            else:
+                del files["legacy_units.yaml"], self.desc.constants[cname], self.desc.const_expr[cname]
         symlinks = {}
         if shape == "symlink" and k >= 2:
             # root additionally imports f0 through a symlinked duplicate path
             symlinks["dup_f0.yaml"] = paths[0]
             files[paths[k - 1]] = files[paths[k - 1]].replace("imports:\n", "imports:\n  - dup_f0.yaml\n", 1)
         self.desc.features.add("shape_" + shape)
-        return {"files": files, "root": paths[k - 1], "symlinks": symlinks, "desc": self.desc.tojson(), "shape": shape, "nfiles": k}
+        return {"files": files, "root": paths[k - 1], "symlinks": symlinks, "desc": self.desc.tojson(), "shape": shape, "nfiles": k, "use_core": self.use_core}
 
     @staticmethod
     def _reach(imports, i):
